@@ -359,8 +359,12 @@ def cls_text(C, m, c):
     return "?%s.%s" % (getattr(C, "__module__", "?"), getattr(C, "__name__", "?"))
 
 
-def obj_text(ex, m, c, slots):
-    """canonical text of a received exception object (same shape as Driver/Vinegar.lean's showObj, attrs sorted)"""
+RAISE_TOUCHED = frozenset(["__traceback__", "__context__", "__cause__", "__suppress_context__"])   # set by `raise` itself
+
+
+def obj_text(ex, m, c, slots, after_raise=False):
+    """canonical text of a received exception object (same shape as Driver/Vinegar.lean's showObj, attrs sorted);
+    after_raise: the object went through a `raise` statement, which rewrites the RAISE_TOUCHED slots"""
     from rpyc.core import vinegar
     T = type(ex)
     if T in vinegar._exception_classes_cache.values():
@@ -370,6 +374,8 @@ def obj_text(ex, m, c, slots):
     ct = cls_text(C, m, c)
     names = set(vars(ex)) if hasattr(ex, "__dict__") else set()
     names |= slots.get("G" if ct.startswith("G ") else "R", set())
+    if after_raise:
+        names -= RAISE_TOUCHED
     attrs = []
     for n in sorted(names):
         try:
@@ -379,21 +385,7 @@ def obj_text(ex, m, c, slots):
     return "%s %s ( %s)" % (ct, valtext.canon(tuple(ex.args)), "".join(attrs))
 
 
-def seen_text(obj_or_exc, raised_error, m, c, slots):
-    """what the requester sees: `raise obj` (AsyncResult.value), or the error raised out of serve()"""
-    if raised_error is not None:
-        return "err " + err_name(raised_error)
-    try:
-        raise obj_or_exc
-    except BaseException as ex:  # noqa
-        if ex is obj_or_exc:
-            return "raised " + obj_text(ex, m, c, slots)
-        if isinstance(obj_or_exc, type) and type(ex) is obj_or_exc:
-            return "raised " + obj_text(ex, "builtins", obj_or_exc.__name__, slots)
-        return "err " + err_name(ex)
-
-
-def sort_model_obj(text):
+def sort_model_obj(text, drop=frozenset()):
     """re-canonicalise `<cls..> <args> <attrs>` printed by the driver: attrs sorted by name, frozensets sorted"""
     toks = text.split()
     if toks[0] == "R":
@@ -405,7 +397,7 @@ def sort_model_obj(text):
         head = "G " + S(fn)
     args, i = valtext._from(toks, i)
     attrs, i = valtext._from(toks, i)
-    pairs = sorted((n, valtext.canon(v)) for n, v in attrs)
+    pairs = sorted((n, valtext.canon(v)) for n, v in attrs if n not in drop)
     return "%s %s ( %s)" % (head, valtext.canon(args), "".join("( %s %s ) " % (S(n), v) for n, v in pairs))
 
 
@@ -430,5 +422,5 @@ def canon_model_line(line):
     elif out.startswith("str "):
         out = "str " + valtext.canon(valtext.from_text(out[4:]))
     res["out"] = out
-    res["seen"] = "raised " + sort_model_obj(seen[7:]) if seen.startswith("raised ") else seen
+    res["seen"] = "raised " + sort_model_obj(seen[7:], RAISE_TOUCHED) if seen.startswith("raised ") else seen
     return res
